@@ -214,8 +214,15 @@ class RandomQueries:
     def where(self):
         r = self.rng
         c = self.col
-        if r.random() < 0.45:
+        if r.random() < 0.35:
             return {'k': 'none'}
+        if r.random() < 0.3:
+            return {'k': 'and', 'args': [self.where_atom(), self.where_atom()]}
+        return self.where_atom()
+
+    def where_atom(self):
+        r = self.rng
+        c = self.col
         return r.choice([{'k': 'bin', 'op': 'gt', 'a': c('v'), 'b': self.const_int(0)}, {'k': 'un', 'op': 'isnotnull', 'a': c('k')},
                          {'k': 'or', 'args': [{'k': 'bin', 'op': 'eq', 'a': c('s'), 'b': {'k': 'const', 'v': self.val('str', 0)}}, {'k': 'un', 'op': 'isnull', 'a': c('v')}]},
                          c('v'), {'k': 'bin', 'op': 'lt', 'a': c('w'), 'b': self.const_int(1)},
@@ -320,6 +327,7 @@ def record_and_validate(ctx, family, ncases, maxrows, extra_judge=None):
     path = ctx.path('select_%s.ndjson' % family)
     n = 0
     cid = 0
+    nfrom = [0]
     with open(path, 'w') as f:
         while cid < ncases:
             rows = gen.table(ctx.rng.choice([0, 1, 2, 3, 5, 8, 13, 21, maxrows]))
@@ -330,6 +338,15 @@ def record_and_validate(ctx, family, ncases, maxrows, extra_judge=None):
                 q = gen.query(family)
                 try:
                     stmt = selectq.query_ast(q, 'g')
+                    w = q['where']
+                    if family == 'plain' and isinstance(w, dict) and w.get('k') == 'and' and len(w['args']) == 2 and ctx.rng.random() < 0.6:
+                        # the FROM expression is AND-ed in front of WHERE: submit  FROM <a> WHERE <b>  for  WHERE a AND b
+                        # (the harness table is also registered as the connection's default table)
+                        from beanquery.parser import ast as _ast
+                        stmt = bql.select_ast([(bql.expr_ast(t['e']), t['as'] or None) for t in q['targets']],
+                                              _ast.From(bql.expr_ast(w['args'][0]), None, None, None), bql.expr_ast(w['args'][1]))
+                        conn.tables['postings'] = conn.tables['g']
+                        nfrom[0] += 1
                 except bql.OutOfDomain:
                     continue
                 status, desc, out = selectq.run_query(conn, stmt)
@@ -372,7 +389,7 @@ def record_and_validate(ctx, family, ncases, maxrows, extra_judge=None):
     if res.post_failed or res.depth - 1 != n:
         raise MachineryError('Trace_Select did not consume the trace: depth %d, lines %d, errors %s' % (res.depth, n, res.errors[:2]))
     ctx.traces += n - nrej
-    ctx.leg('C2S', select_lines=n, select_rejected=nrej, family=family)
+    ctx.leg('C2S', select_lines=n, select_rejected=nrej, family=family, via_from_expression=nfrom[0])
     return n
 
 
